@@ -774,3 +774,75 @@ func cloneUC(uc types.UnlockConditions) types.UnlockConditions {
 	uc.PublicKeys = keys
 	return uc
 }
+
+// InflationProbes records, for the transactions of the honest block, siblings whose outputs were padded with pairs of
+// values that cancel in wrapping arithmetic (2 x 2^63 siafunds in 64 bits, 2 x 2^127 hastings in 128 bits, a fee and
+// an output of 2^127 each), honestly re-signed and re-sealed. Their sums equal the honest sums modulo the word size,
+// so only the overflow guards of validation stand between such a block and the creation of value. They are judged by
+// the accepted => sound oracle (conservation, siafund count), not by a presumed rejection.
+func (a *Adv) InflationProbes() int {
+	n := 0
+	half128 := types.Currency{Hi: 1 << 63}
+	emit := func(blk types.Block, label string) {
+		if a.emit(blk, label, "sound", nil, nil) {
+			n++
+		}
+	}
+	for ti := range a.Honest.Transactions {
+		orig := a.Honest.Transactions[ti]
+		partial := len(orig.Signatures) > 0 && !orig.Signatures[0].CoveredFields.WholeTransaction
+		if len(orig.SiafundInputs) > 0 {
+			blk := CloneBlock(a.Honest)
+			x := &blk.Transactions[ti]
+			x.SiafundOutputs = append(x.SiafundOutputs, types.SiafundOutput{Value: 1 << 63, Address: types.Address{0xC1}}, types.SiafundOutput{Value: 1 << 63, Address: types.Address{0xC2}})
+			SignV1(a.CS, x, partial)
+			emit(blk, "wrap/v1-siafund-outputs-2x2^63")
+		}
+		if len(orig.SiacoinInputs) > 0 {
+			blk := CloneBlock(a.Honest)
+			x := &blk.Transactions[ti]
+			x.SiacoinOutputs = append(x.SiacoinOutputs, types.SiacoinOutput{Value: half128, Address: types.Address{0xC3}}, types.SiacoinOutput{Value: half128, Address: types.Address{0xC4}})
+			SignV1(a.CS, x, partial)
+			emit(blk, "wrap/v1-siacoin-outputs-2x2^127")
+			blk = CloneBlock(a.Honest)
+			x = &blk.Transactions[ti]
+			x.SiacoinOutputs = append(x.SiacoinOutputs, types.SiacoinOutput{Value: half128, Address: types.Address{0xC5}})
+			x.MinerFees = append(x.MinerFees, half128)
+			SignV1(a.CS, x, partial)
+			emit(blk, "wrap/v1-output+fee-2^127")
+		}
+		break
+	}
+	for ti := range a.Honest.V2Transactions() {
+		orig := a.Honest.V2.Transactions[ti]
+		if len(orig.SiafundInputs) > 0 {
+			blk := CloneBlock(a.Honest)
+			x := &blk.V2.Transactions[ti]
+			x.SiafundOutputs = append(x.SiafundOutputs, types.SiafundOutput{Value: 1 << 63, Address: types.Address{0xC6}}, types.SiafundOutput{Value: 1 << 63, Address: types.Address{0xC7}})
+			SignV2(a.CS, x, SignOpts{})
+			emit(blk, "wrap/v2-siafund-outputs-2x2^63")
+			blk = CloneBlock(a.Honest)
+			x = &blk.V2.Transactions[ti]
+			x.SiafundOutputs = append(x.SiafundOutputs, types.SiafundOutput{Value: ^uint64(0), Address: types.Address{0xC8}}, types.SiafundOutput{Value: 1, Address: types.Address{0xC9}})
+			SignV2(a.CS, x, SignOpts{})
+			emit(blk, "wrap/v2-siafund-outputs-max+1")
+		}
+		if len(orig.SiacoinInputs) > 0 {
+			blk := CloneBlock(a.Honest)
+			x := &blk.V2.Transactions[ti]
+			x.SiacoinOutputs = append(x.SiacoinOutputs, types.SiacoinOutput{Value: half128, Address: types.Address{0xCA}}, types.SiacoinOutput{Value: half128, Address: types.Address{0xCB}})
+			SignV2(a.CS, x, SignOpts{})
+			emit(blk, "wrap/v2-siacoin-outputs-2x2^127")
+			if x.MinerFee.Hi < 1<<62 {
+				blk = CloneBlock(a.Honest)
+				x = &blk.V2.Transactions[ti]
+				x.SiacoinOutputs = append(x.SiacoinOutputs, types.SiacoinOutput{Value: half128, Address: types.Address{0xCC}})
+				x.MinerFee = x.MinerFee.Add(half128)
+				SignV2(a.CS, x, SignOpts{})
+				emit(blk, "wrap/v2-output+fee-2^127")
+			}
+		}
+		break
+	}
+	return n
+}
